@@ -250,7 +250,11 @@ func oracleC01(res *prodResult, vs *violSet) {
 		last := map[string]int{}
 		for _, sr := range res.submitted {
 			if len(count[sr.Ptr]) == 0 {
-				if f := facts[sr.Ptr]; f != nil {
+				f := facts[sr.Ptr]
+				if f != nil && f.outcomes > 0 {
+					continue // an outcome was produced; Close's own drain took it
+				}
+				if f != nil {
 					last[f.lastPoint]++
 				} else {
 					last["never-dispatched"]++
